@@ -4,6 +4,7 @@ from __future__ import annotations
 import copy
 
 import common as C
+import re_probes as RP
 import fault_probes as FP
 import engine_common as E
 import engine_extract
@@ -313,6 +314,7 @@ def run(ctx, model=True):
     res.count("impl-only-probe:msg_mutator-dropping-messages", n)
     for sig, what, case in dropped_message_probe(ctx.rng, n):
         res.violations.append(C.Violation(sig, "implementation-only probe: " + what, case))
+    RP.add_to(res, ["wrapper-response"])
     return res
 
 
@@ -321,6 +323,9 @@ def run_impl_only(ctx):
 
 
 def replay(ctx, data):
+    r = RP.replay(data)
+    if r is not None:
+        return r
     if FP.is_probe(data):
         return FP.replay_probe(ctx, data, PROBE_JUDGES)
     if (data.get("case") or {}).get("probe") == "dropped-message":
